@@ -11,6 +11,8 @@ package main
 import (
 	"math/rand"
 
+	"github.com/cosmos/cosmos-proto/zzverif/glue"
+
 	"google.golang.org/protobuf/reflect/protoreflect"
 )
 
@@ -47,6 +49,11 @@ func (w *WireGen) scalarPayload(b []byte, k Kind, v Val) []byte {
 	switch wireTypeOf(k) {
 	case 0:
 		u := wireScalar(k, v)
+		if k == protoreflect.BoolKind && u != 0 && w.NonMin && w.R.Intn(4) == 0 {
+			// any non-zero varint is true
+			u = []uint64{2, 3, 128, 300, 1 << 32, 1 << 40, 1<<63 | 1, 0xfffffffffffffffe}[w.R.Intn(8)]
+			w.mut("bool-varint-not-0-or-1")
+		}
 		switch k {
 		case protoreflect.Uint32Kind, protoreflect.Sint32Kind, protoreflect.Int32Kind, protoreflect.EnumKind:
 			// a varint wider than 32 bits for a 32-bit kind is well typed: decoders truncate (sint32: before un-zig-zagging)
@@ -248,7 +255,7 @@ func (w *WireGen) Chunks(m *Msg, depth int) [][]byte {
 	}
 	if w.Unknown && r.Intn(3) == 0 {
 		for n := 1 + r.Intn(3); n > 0; n-- {
-			chunks = append(chunks, w.G.UnknownRecord(m.D, 0))
+			chunks = append(chunks, w.unknownRecord(m.D))
 			w.mut("unknown-record-injected/depth" + itoa(depth))
 		}
 	}
@@ -351,4 +358,28 @@ func unknownLevels(m *Msg) (levels, nbytes int) {
 		}
 	}
 	return
+}
+
+// unknownRecord: an unknown record whose tag is sometimes not minimally encoded (still valid wire format;
+// it has to be kept byte for byte).
+func (w *WireGen) unknownRecord(d MD) []byte {
+	rec := w.G.UnknownRecord(d, 0)
+	if !w.NonMin || w.R.Intn(5) != 0 {
+		return rec
+	}
+	if glue.Lookup(d.FullName()) == nil {
+		// protobuf-go's own generated types (well-known types) re-encode the tag of an unknown record
+		// minimally when they store it; that is their behaviour, not the subject's
+		return rec
+	}
+	t, n, err := consumeVarint(rec)
+	if err != nil || t&7 == 3 { // groups: the end tag must stay consistent; leave them alone
+		return rec
+	}
+	w.mut("unknown-record-non-minimal-tag")
+	width := n + 1 + w.R.Intn(2)
+	if width > 10 {
+		width = 10
+	}
+	return append(appendVarintN(nil, t, width), rec[n:]...)
 }
